@@ -695,5 +695,6 @@ func cmdGen(args []string) {
 	ch4 := genAccess(repo, outDir)
 	ch5 := writeFuncTerms(repo, outDir)
 	ch6 := writeInputWrites(repo, outDir)
-	fmt.Printf("gen: nodes=%d sigs=%d changed=%v,%v,%v,%v,%v,%v\n", len(flat), len(sigs), ch1, ch2, ch3, ch4, ch5, ch6)
+	ch7 := writeSrcFuncs(repo, outDir)
+	fmt.Printf("gen: nodes=%d sigs=%d changed=%v,%v,%v,%v,%v,%v,%v\n", len(flat), len(sigs), ch1, ch2, ch3, ch4, ch5, ch6, ch7)
 }
